@@ -334,7 +334,9 @@ def _parse_place_at(s, pos):
             else:
                 m = re.match(r'^(\d*):(-?)(\d*)$', idx)
                 assert m, s
-                pl = Place(pl.local, pl.proj + [('subslice', int(m.group(1) or 0), bool(m.group(2)),
+                # `[a:]` / `[a:-b]` count the end from the back; `[a:b]` is absolute
+                from_end = bool(m.group(2)) or m.group(3) == ''
+                pl = Place(pl.local, pl.proj + [('subslice', int(m.group(1) or 0), from_end,
                                                   int(m.group(3)) if m.group(3) else 0)])
         pos = close + 1
     return pl, pos
